@@ -13,7 +13,7 @@ from hera.data import DataLabel, HERAError, Label, Location, Program, Settings
 from hera.loader import load_program
 from hera.op import LABEL, OPCODE, Branch, DataOperation, disassemble, name_to_class
 from hera.parser import parse
-from hera.utils import format_int, out_of_range, pad
+from hera.utils import format_int, out_of_range, pad, to_u16
 
 from . import miniparser
 from .debugger import Debugger
@@ -248,10 +248,12 @@ class Shell:
             if isinstance(ltree, RegisterNode):
                 vm.store_register(ltree.value, rhs)
             elif isinstance(ltree, MemoryNode):
-                address = self.evaluate_node(ltree.address)
-                vm.store_memory(address, rhs)
+                address = to_u16(self.evaluate_node(ltree.address))
+                vm.store_memory(address, to_u16(rhs))
             elif isinstance(ltree, SymbolNode):
                 if ltree.value == "pc":
+                    if rhs < 0:
+                        raise HERAError("program counter cannot be negative")
                     vm.pc = rhs
                 else:
                     print("Eval error: cannot assign to symbol.")
@@ -926,7 +928,7 @@ class Shell:
         elif isinstance(node, RegisterNode):
             return vm.load_register(node.value)
         elif isinstance(node, MemoryNode):
-            address = self.evaluate_node(node.address)
+            address = to_u16(self.evaluate_node(node.address))
             return vm.load_memory(address)
         elif isinstance(node, SymbolNode):
             if node.value.lower() == "pc":
